@@ -552,6 +552,7 @@ func c07plan(tier string, seed int64) []run.Job {
 		jobs = append(jobs, run.Job{Family: "mutual", Seed: seed*100000 + 50000 + int64(i), N: per / 2, P: map[string]int{"inputs": 5, "maxlen": 8}})
 		jobs = append(jobs, run.Job{Family: "sharing", Seed: seed*100000 + 60000 + int64(i), N: per * 6, P: map[string]int{"trims": 0}})
 		jobs = append(jobs, run.Job{Family: "sharing", Seed: seed*100000 + 70000 + int64(i), N: per * 3, P: map[string]int{"trims": 1}})
+		jobs = append(jobs, run.Job{Family: "strings", Seed: seed*100000 + 75000 + int64(i), N: per, P: map[string]int{"inputs": 5}})
 	}
 	jobs = append(jobs, enumJobs(maxNodes, false, 4, 300)...)
 	return jobs
